@@ -68,6 +68,8 @@ fn value_class(key: &str, width: usize, v: u64) -> &'static str {
         "sentinel-neighbour"
     } else if Some(v) == other_resolution(key, width) {
         "other-resolution-sentinel"
+    } else if [54_600_000u64, 108_600_000, 1023, 3600, 511, 4095, 60].contains(&v) {
+        "sibling-sentinel"
     } else if v == 0 || v == max || v == max / 2 || v == max / 2 + 1 {
         "extreme"
     } else {
@@ -109,6 +111,15 @@ pub fn run(ctx: &Ctx, rep: &mut Report) {
                     for d in 0..=2u64 {
                         vals.push((o + d) & max);
                         vals.push(o.wrapping_sub(d) & max);
+                    }
+                }
+                // the sentinels of the sibling fields of this message (a latitude's 91 degrees
+                // is an ordinary longitude; a speed's 1023 an ordinary course ...)
+                for o in opts.iter() {
+                    let os = sentinel_of(o.key, o.width as usize).unwrap();
+                    for d in 0..=2u64 {
+                        vals.push((os + d) & max);
+                        vals.push(os.wrapping_sub(d) & max);
                     }
                 }
                 // negated sentinel (sign handling) and random values
